@@ -32,50 +32,51 @@ type Obligation struct {
 
 // FnCtx is the per-function verification context.
 type FnCtx struct {
-	eng      *Engine
-	fn       *ssa.Function
-	name     string // display name pkg.Func
-	con      *Contract
-	decls    []string
-	declSet  map[string]bool
-	fresh    int
-	lits     map[string]string // string literal -> const name
-	litOrder []string
-	obls     []*Obligation
-	paths    int
-	ordinals map[string]int // kind -> next ordinal (static numbering via instrOrd)
-	instrOrd map[ssa.Instruction]map[string]int
-	assumed  map[string]bool // assumptions/havocs recorded
-	checked  bool            // machine-arithmetic obligations on
-	loopHdr  map[*ssa.BasicBlock]int
-	loopBody map[*ssa.BasicBlock]map[*ssa.BasicBlock]bool
-	entry    *State // snapshot at entry (for old())
-	unsup    map[string]bool
-	budget   int
-	frame      []frameLoc
-	frameOn    bool
-	frameAll   bool
-	used       map[string]bool
-	entryVals  map[*ssa.Parameter]Val
-	entryTerms []entryTerm
-	quantHeavy     bool
-	interned       map[string]string
-	litText        map[string]string
-	catParts       map[string][]strAtom
-	entryHeld      string
-	clauseErr      string
-	usesLock       bool
-	sorts          map[string]string
-	constArrs      map[string]string
-	loopUnkPkgs    []*types.Package
-	loopUnkFuncArg bool
+	eng             *Engine
+	fn              *ssa.Function
+	name            string // display name pkg.Func
+	con             *Contract
+	decls           []string
+	declSet         map[string]bool
+	fresh           int
+	lits            map[string]string // string literal -> const name
+	litOrder        []string
+	obls            []*Obligation
+	paths           int
+	ordinals        map[string]int // kind -> next ordinal (static numbering via instrOrd)
+	instrOrd        map[ssa.Instruction]map[string]int
+	assumed         map[string]bool // assumptions/havocs recorded
+	checked         bool            // machine-arithmetic obligations on
+	loopHdr         map[*ssa.BasicBlock]int
+	loopBody        map[*ssa.BasicBlock]map[*ssa.BasicBlock]bool
+	entry           *State // snapshot at entry (for old())
+	unsup           map[string]bool
+	budget          int
+	frame           []frameLoc
+	frameOn         bool
+	frameAll        bool
+	used            map[string]bool
+	entryVals       map[*ssa.Parameter]Val
+	entryTerms      []entryTerm
+	quantHeavy      bool
+	interned        map[string]string
+	litText         map[string]string
+	catParts        map[string][]strAtom
+	entryHeld       string
+	clauseErr       string
+	usesLock        bool
+	sorts           map[string]string
+	constArrs       map[string]string
+	loopUnkPkgs     []*types.Package
+	loopUnkFuncArg  bool
 	loopCellAllocs  map[string][]*ssa.Alloc
 	loopCellGeneric map[string]bool
-	entryFrees map[*ssa.FreeVar]Val
-	useLines   bool // line-measure spec functions (mxl/fstl/lstl) are in play
-	cellsMode  bool // the cell model of ansi.expand is in play
-	strOrder   bool // nsx facts and associativity of concatenation are emitted
-	provMode   bool // embedded JSON values inherit the provenance (servedBy) of their document
+	entryFrees      map[*ssa.FreeVar]Val
+	useLines        bool // line-measure spec functions (mxl/fstl/lstl) are in play
+	cellsMode       bool // the cell model of ansi.expand is in play
+	siteProbes      map[ssa.Instruction]int
+	strOrder        bool // nsx facts and associativity of concatenation are emitted
+	provMode        bool // embedded JSON values inherit the provenance (servedBy) of their document
 }
 
 func (c *FnCtx) declare(name, decl string) {
@@ -129,32 +130,32 @@ type deferredCall struct {
 
 // State is the symbolic state along one path.
 type State struct {
-	c       *FnCtx
-	lines   []string
-	env     map[ssa.Value]Val
-	heap    map[string]string
-	epoch   int
-	alloc   string
-	alloc0  string
-	names   map[string]nameBinding
-	defers  []deferredCall
-	ghost   map[string]Val
-	inLoop  map[*ssa.BasicBlock]bool
-	pc      []string // branch decisions, for diagnostics
-	depth   int
-	dead    bool
-	frees   map[*ssa.FreeVar]Val
-	retk    func(*State, []Val)
-	fnStack []*ssa.Function
-	locals  map[string]Val // contract-scope bindings (quantified vars, pred params)
-	held    string         // ghost: mutex held (Bool term)
-	frames  []frame
-	havocs  []havocRec
-	lastBound string
-	boxed     map[string]Val // interface term name -> the struct value that was boxed into it
-	noTypeInv bool
+	c           *FnCtx
+	lines       []string
+	env         map[ssa.Value]Val
+	heap        map[string]string
+	epoch       int
+	alloc       string
+	alloc0      string
+	names       map[string]nameBinding
+	defers      []deferredCall
+	ghost       map[string]Val
+	inLoop      map[*ssa.BasicBlock]bool
+	pc          []string // branch decisions, for diagnostics
+	depth       int
+	dead        bool
+	frees       map[*ssa.FreeVar]Val
+	retk        func(*State, []Val)
+	fnStack     []*ssa.Function
+	locals      map[string]Val // contract-scope bindings (quantified vars, pred params)
+	held        string         // ghost: mutex held (Bool term)
+	frames      []frame
+	havocs      []havocRec
+	lastBound   string
+	boxed       map[string]Val // interface term name -> the struct value that was boxed into it
+	noTypeInv   bool
 	inGlobalInv bool
-	selfFn    Val
+	selfFn      Val
 }
 
 func (s *State) clone() *State {
@@ -701,6 +702,20 @@ func (s *State) heapBoundFacts() {
 		}
 	}
 	sort.Strings(keys)
+	// every object recorded in a tracked allocation set exists already
+	var asets []string
+	for k := range s.heap {
+		if strings.HasPrefix(k, "allocset|") {
+			asets = append(asets, k)
+		}
+	}
+	sort.Strings(asets)
+	for _, k := range asets {
+		h := s.heap[k]
+		r := fmt.Sprintf("r!%d", s.c.fresh)
+		s.c.fresh++
+		s.assume(fmt.Sprintf("(forall ((%s Int)) (! (=> (select %s %s) (< %s %s)) :pattern ((select %s %s))))", r, h, r, r, s.alloc, h, r))
+	}
 	for _, k := range keys {
 		h := s.heap[k]
 		r := fmt.Sprintf("r!%d", s.c.fresh)
@@ -708,9 +723,11 @@ func (s *State) heapBoundFacts() {
 		if s.c.eng.refKeys2[k] {
 			i := fmt.Sprintf("i!%d", s.c.fresh)
 			s.c.fresh++
-			s.assume(fmt.Sprintf("(forall ((%s Int) (%s Int)) (! (< (select (select %s %s) %s) %s) :pattern ((select (select %s %s) %s))))", r, i, h, r, i, s.alloc, h, r, i))
+			// only objects that exist already: the fields of objects allocated later (by a callee, say) are not
+			// constrained by what the heap array happens to hold at their future address
+			s.assume(fmt.Sprintf("(forall ((%s Int) (%s Int)) (! (=> (< %s %s) (< (select (select %s %s) %s) %s)) :pattern ((select (select %s %s) %s))))", r, i, r, s.alloc, h, r, i, s.alloc, h, r, i))
 		} else {
-			s.assume(fmt.Sprintf("(forall ((%s Int)) (! (< (select %s %s) %s) :pattern ((select %s %s))))", r, h, r, s.alloc, h, r))
+			s.assume(fmt.Sprintf("(forall ((%s Int)) (! (=> (< %s %s) (< (select %s %s) %s)) :pattern ((select %s %s))))", r, r, s.alloc, h, r, s.alloc, h, r))
 		}
 	}
 }
